@@ -3,7 +3,7 @@
  * and addresses of DES / 3DES / DOCSIS-DES / KASUMI / SNOW3G jobs, observed on
  * the compiled library under valgrind (memcheck or lackey).
  *
- *   k7_leak <sse|avx2> <script> [--no-taint]
+ *   k7_leak <sse|avx2> <script> [--no-taint] [--batch N]
  *
  * script: one case per line
  *   <id> <algo> <dir> <len> <off> <keyhex> <ivhex> <msgseed>
@@ -14,31 +14,34 @@
  *   key  : 8 / 24 / 8 / 16 / 16 / 16 / 16 bytes
  *   iv   : 8 / 8 / 8 / 8 / - / 16 / 16 bytes
  *
- * For every case the job is prepared exactly as an application would (key
- * schedule built by the library's helper), then
- *   - every byte that is secret or derived from the secret (key schedule) is
- *     marked UNDEFINED for memcheck (client request; a no-op outside memcheck),
- *   - a marker store to the fixed address K7_MARK is executed (value = 1),
- *   - IMB_SUBMIT_JOB / IMB_FLUSH_JOB run until the job comes back,
- *   - a marker store (value = 2) is executed,
- *   - outputs, the key schedule and the whole manager are made DEFINED again.
+ * For every group of N (--batch, default 1) consecutive cases the jobs are
+ * prepared exactly as an application would (key schedule built by the library's
+ * helper from the raw key), then
+ *   - every byte that is secret or derived from the secret (the key schedules)
+ *     is marked UNDEFINED for memcheck (client request; no-op outside memcheck),
+ *   - a marker store to K7_MARK+0 is executed,
+ *   - the N jobs are submitted with IMB_SUBMIT_JOB, then IMB_FLUSH_JOB runs
+ *     until all of them have come back,
+ *   - a marker store to K7_MARK+8 is executed,
+ *   - outputs, key schedules and the whole manager are made DEFINED again.
  * Under memcheck any "Conditional jump or move depends on uninitialised
  * value(s)" / "Use of uninitialised value of size N" raised in between is a
  * secret-dependent branch / address.  The number of memcheck errors raised by
- * each case is printed (VALGRIND_COUNT_ERRORS), so that errors can be
- * attributed to inputs.  Under lackey (--trace-mem=yes) the part of the trace
- * between the two marker stores is the job's instruction/data address sequence.
+ * each group is printed (VALGRIND_COUNT_ERRORS), so that errors can be
+ * attributed to inputs; taint=1 confirms that memcheck saw the secret reach the
+ * output (the tainting is effective).  Under lackey (--trace-mem=yes) the part
+ * of the trace between the two marker stores is the jobs' instruction / data
+ * address sequence (filter: k7_trace.c).
  *
- * All buffers are allocated once and reused by every case of a script, so that
- * the address sequence of two cases differing only in the key must be literally
- * identical (the only rotating object, the IMB_JOB ring slot, is announced on
- * the RING line so that the trace filter can fold it).
+ * All buffers are allocated once per slot and reused by every group of a script,
+ * so the address sequences of two groups differing only in the keys must be
+ * literally identical.  The only rotating object, the IMB_JOB ring slot, is
+ * announced in band (see k7_trace.c) so that the filter can fold it.
  *
  * Output (stdout):
- *   RING base=<hex> stride=<dec> count=<dec>
- *   MARK addr=<hex>
- *   CASE id=<id> status=<st> errno=<e> errs=<memcheck errors raised by this case>
- *        taint=<1 iff memcheck saw undefined bits in the output, i.e. the secret reached it> out=<hex>
+ *   VARIANT arch=<used_arch> type=<used_arch_type> features=<hex>
+ *   CASE id=<id> status=<st> errno=<e> errs=<memcheck errors raised by the group>
+ *        taint=<0|1> out=<hex>
  */
 #define _GNU_SOURCE
 #include <stdio.h>
@@ -51,8 +54,19 @@
 #include <valgrind/valgrind.h>
 #include <valgrind/memcheck.h>
 
-#define K7_MARK  ((volatile uint64_t *) 0x7e0000000000ULL)
-#define MAXLEN   4096
+#define K7_MARK   0x7e0000000000ULL
+#define MAXLEN    4096
+#define MAXBATCH  16
+
+static volatile uint64_t *const k7_page = (volatile uint64_t *) K7_MARK;
+
+static void
+announce(const int k, const uint64_t v)
+{
+        k7_page[(0x10 + 8 * k) / 8] = 1;
+        for (int i = 15; i >= 0; i--)
+                k7_page[(0x100 + 8 * ((v >> (4 * i)) & 15)) / 8] = 1;
+}
 
 static uint64_t
 splitmix64(uint64_t *s)
@@ -82,14 +96,6 @@ hex2bin(const char *s, uint8_t *out, size_t max)
         return (int) n;
 }
 
-/* all state that is reused between cases */
-static uint8_t *src, *dst, *tag, *iv;
-static uint64_t (*des_ks)[IMB_DES_KEY_SCHED_SIZE / 8]; /* [3][16] */
-static const void *des3_ptrs[3];
-static kasumi_key_sched_t *kas;
-static snow3g_key_schedule_t *s3g;
-static size_t s3g_size;
-
 static void *
 xalloc(size_t n)
 {
@@ -101,14 +107,205 @@ xalloc(size_t n)
         return p;
 }
 
+/* one slot = the buffers of one job of a group; allocated once, reused */
+typedef struct {
+        uint8_t *src, *dst, *tag, *iv;
+        uint64_t (*des_ks)[IMB_DES_KEY_SCHED_SIZE / 8]; /* [3][16] */
+        const void *des3_ptrs[3];
+        kasumi_key_sched_t *kas;
+        snow3g_key_schedule_t *s3g;
+        /* per case */
+        char id[64];
+        int ok;
+        void *sec_ptr;
+        size_t sec_len;
+        const uint8_t *out_ptr;
+        size_t out_len;
+        int status, done;
+        void *user;
+} slot_t;
+
+static slot_t slots[MAXBATCH];
+static size_t s3g_size;
+
+static int
+prepare(IMB_MGR *mgr, slot_t *s, const char *line, IMB_JOB *tmpl)
+{
+        char algo[32], keyhex[128], ivhex[128];
+        int dir;
+        unsigned long len, off;
+        unsigned long long seed;
+        uint8_t key[32], ivb[32];
+
+        s->ok = 0;
+        s->done = 0;
+        s->status = -1;
+        snprintf(s->id, sizeof(s->id), "?");
+        if (sscanf(line, "%63s %31s %d %lu %lu %127s %127s %llu", s->id, algo, &dir, &len, &off,
+                   keyhex, ivhex, &seed) != 8)
+                return -1;
+        const int klen = hex2bin(keyhex, key, sizeof(key));
+        const int ivlen = hex2bin(ivhex, ivb, sizeof(ivb));
+
+        if (klen < 0 || ivlen < 0)
+                return -1;
+        /* public data: message, IV, previous dst content */
+        uint64_t st = seed;
+
+        for (size_t i = 0; i < MAXLEN; i += 8) {
+                const uint64_t v = splitmix64(&st);
+
+                memcpy(s->src + i, &v, 8);
+        }
+        memset(s->dst, 0x5a, MAXLEN);
+        memset(s->tag, 0x3c, 64);
+        memset(s->iv, 0, 64);
+        memcpy(s->iv, ivb, (size_t) ivlen);
+
+        size_t nbytes = 0;
+        IMB_JOB *job = tmpl;
+
+        memset(job, 0, sizeof(*job));
+        job->src = s->src;
+        job->dst = s->dst;
+        job->iv = s->iv;
+        job->cipher_direction = (dir == 2) ? IMB_DIR_DECRYPT : IMB_DIR_ENCRYPT;
+        job->chain_order = IMB_ORDER_CIPHER_HASH;
+        job->cipher_mode = IMB_CIPHER_NULL;
+        job->hash_alg = IMB_AUTH_NULL;
+        job->user_data = s;
+        s->out_ptr = s->dst;
+
+        if (strcmp(algo, "des") == 0 || strcmp(algo, "docsis") == 0) {
+                if (klen != 8)
+                        return -1;
+                IMB_DES_KEYSCHED(mgr, s->des_ks[0], key);
+                job->cipher_mode = algo[1] == 'e' ? IMB_CIPHER_DES : IMB_CIPHER_DOCSIS_DES;
+                job->enc_keys = job->dec_keys = s->des_ks[0];
+                job->key_len_in_bytes = 8;
+                job->iv_len_in_bytes = 8;
+                job->cipher_start_src_offset_in_bytes = off;
+                job->msg_len_to_cipher_in_bytes = len;
+                nbytes = off + len;
+                s->out_len = len;
+                s->sec_ptr = s->des_ks[0];
+                s->sec_len = IMB_DES_KEY_SCHED_SIZE;
+        } else if (strcmp(algo, "des3") == 0) {
+                if (klen != 24)
+                        return -1;
+                for (int i = 0; i < 3; i++)
+                        IMB_DES_KEYSCHED(mgr, s->des_ks[i], key + 8 * i);
+                job->cipher_mode = IMB_CIPHER_DES3;
+                job->enc_keys = job->dec_keys = s->des3_ptrs;
+                job->key_len_in_bytes = 24;
+                job->iv_len_in_bytes = 8;
+                job->cipher_start_src_offset_in_bytes = off;
+                job->msg_len_to_cipher_in_bytes = len;
+                nbytes = off + len;
+                s->out_len = len;
+                s->sec_ptr = s->des_ks;
+                s->sec_len = 3 * IMB_DES_KEY_SCHED_SIZE;
+        } else if (strcmp(algo, "kasumi_f8") == 0) {
+                if (klen != 16)
+                        return -1;
+                IMB_KASUMI_INIT_F8_KEY_SCHED(mgr, key, s->kas);
+                job->cipher_mode = IMB_CIPHER_KASUMI_UEA1_BITLEN;
+                job->enc_keys = job->dec_keys = s->kas;
+                job->key_len_in_bytes = 16;
+                job->iv_len_in_bytes = 8;
+                job->cipher_start_src_offset_in_bits = off;
+                job->msg_len_to_cipher_in_bits = len;
+                nbytes = (off + len + 7) / 8;
+                s->out_len = nbytes;
+                s->sec_ptr = s->kas;
+                s->sec_len = sizeof(*s->kas);
+        } else if (strcmp(algo, "kasumi_f9") == 0) {
+                if (klen != 16)
+                        return -1;
+                IMB_KASUMI_INIT_F9_KEY_SCHED(mgr, key, s->kas);
+                job->hash_alg = IMB_AUTH_KASUMI_UIA1;
+                job->chain_order = IMB_ORDER_HASH_CIPHER;
+                job->u.KASUMI_UIA1._key = s->kas;
+                job->hash_start_src_offset_in_bytes = off;
+                job->msg_len_to_hash_in_bytes = len;
+                job->auth_tag_output = s->tag;
+                job->auth_tag_output_len_in_bytes = 4;
+                nbytes = off + len;
+                s->out_ptr = s->tag;
+                s->out_len = 4;
+                s->sec_ptr = s->kas;
+                s->sec_len = sizeof(*s->kas);
+        } else if (strcmp(algo, "snow3g_uea2") == 0) {
+                if (klen != 16)
+                        return -1;
+                IMB_SNOW3G_INIT_KEY_SCHED(mgr, key, s->s3g);
+                job->cipher_mode = IMB_CIPHER_SNOW3G_UEA2_BITLEN;
+                job->enc_keys = job->dec_keys = s->s3g;
+                job->key_len_in_bytes = 16;
+                job->iv_len_in_bytes = 16;
+                job->cipher_start_src_offset_in_bits = off;
+                job->msg_len_to_cipher_in_bits = len;
+                nbytes = (off + len + 7) / 8;
+                s->out_len = nbytes;
+                s->sec_ptr = s->s3g;
+                s->sec_len = s3g_size;
+        } else if (strcmp(algo, "snow3g_uia2") == 0) {
+                if (klen != 16)
+                        return -1;
+                IMB_SNOW3G_INIT_KEY_SCHED(mgr, key, s->s3g);
+                job->hash_alg = IMB_AUTH_SNOW3G_UIA2_BITLEN;
+                job->chain_order = IMB_ORDER_HASH_CIPHER;
+                job->u.SNOW3G_UIA2._key = s->s3g;
+                job->u.SNOW3G_UIA2._iv = s->iv;
+                job->hash_start_src_offset_in_bytes = off;
+                job->msg_len_to_hash_in_bits = len;
+                job->auth_tag_output = s->tag;
+                job->auth_tag_output_len_in_bytes = 4;
+                nbytes = off + (len + 7) / 8;
+                s->out_ptr = s->tag;
+                s->out_len = 4;
+                s->sec_ptr = s->s3g;
+                s->sec_len = s3g_size;
+        } else {
+                return -1;
+        }
+        if (nbytes > MAXLEN)
+                return -1;
+        s->ok = 1;
+        return 0;
+}
+
+static void
+collect(IMB_JOB *ret)
+{
+        if (ret == NULL)
+                return;
+        (void) VALGRIND_MAKE_MEM_DEFINED(ret, sizeof(*ret));
+        slot_t *s = ret->user_data;
+
+        if (s != NULL) {
+                s->done = 1;
+                s->status = (int) ret->status;
+        }
+}
+
 int
 main(int argc, char **argv)
 {
         if (argc < 3) {
-                fprintf(stderr, "usage: k7_leak <sse|avx2> <script> [--no-taint]\n");
+                fprintf(stderr, "usage: k7_leak <sse|avx2> <script> [--no-taint] [--batch N]\n");
                 return 2;
         }
-        const int taint = !(argc > 3 && strcmp(argv[3], "--no-taint") == 0);
+        int taint = 1, batch = 1;
+
+        for (int i = 3; i < argc; i++) {
+                if (strcmp(argv[i], "--no-taint") == 0)
+                        taint = 0;
+                else if (strcmp(argv[i], "--batch") == 0 && i + 1 < argc)
+                        batch = atoi(argv[++i]);
+        }
+        if (batch < 1 || batch > MAXBATCH)
+                return 2;
         void *m = mmap((void *) K7_MARK, 4096, PROT_READ | PROT_WRITE,
                        MAP_PRIVATE | MAP_ANONYMOUS | MAP_FIXED, -1, 0);
         if (m != (void *) K7_MARK) {
@@ -132,232 +329,127 @@ main(int argc, char **argv)
         }
         const size_t mgr_size = imb_get_mb_mgr_size();
 
-        src = xalloc(MAXLEN + 64);
-        dst = xalloc(MAXLEN + 64);
-        tag = xalloc(64);
-        iv = xalloc(64);
-        des_ks = xalloc(3 * IMB_DES_KEY_SCHED_SIZE);
-        kas = xalloc(sizeof(*kas));
         s3g_size = IMB_SNOW3G_KEY_SCHED_SIZE(mgr);
         if (s3g_size < sizeof(snow3g_key_schedule_t))
                 s3g_size = sizeof(snow3g_key_schedule_t);
-        s3g = xalloc(s3g_size);
-        for (int i = 0; i < 3; i++)
-                des3_ptrs[i] = des_ks[i];
+        for (int b = 0; b < batch; b++) {
+                slot_t *s = &slots[b];
 
-        printf("RING base=%llx stride=%u count=%u\n", (unsigned long long) (uintptr_t) mgr->jobs,
-               (unsigned) sizeof(IMB_JOB), (unsigned) IMB_MAX_JOBS);
-        printf("MARK addr=%llx\n", (unsigned long long) (uintptr_t) K7_MARK);
+                s->src = xalloc(MAXLEN + 64);
+                s->dst = xalloc(MAXLEN + 64);
+                s->tag = xalloc(64);
+                s->iv = xalloc(64);
+                s->des_ks = xalloc(3 * IMB_DES_KEY_SCHED_SIZE);
+                s->kas = xalloc(sizeof(*s->kas));
+                s->s3g = xalloc(s3g_size);
+                for (int i = 0; i < 3; i++)
+                        s->des3_ptrs[i] = s->des_ks[i];
+        }
+
         printf("VARIANT arch=%u type=%u features=%llx\n", (unsigned) mgr->used_arch,
                (unsigned) mgr->used_arch_type, (unsigned long long) mgr->features);
+        announce(0, (uint64_t) (uintptr_t) &imb_get_version);
+        announce(1, (uint64_t) (uintptr_t) mgr->jobs);
+        announce(2, (uint64_t) sizeof(IMB_JOB));
+        announce(3, (uint64_t) IMB_MAX_JOBS);
 
         FILE *f = fopen(argv[2], "r");
 
         if (f == NULL)
                 return 2;
-        char line[2048];
+        static char lines[MAXBATCH][2048];
+        static IMB_JOB tmpl[MAXBATCH];
 
-        while (fgets(line, sizeof(line), f) != NULL) {
-                char id[64], algo[32], keyhex[128], ivhex[128];
-                int dir;
-                unsigned long len, off;
-                unsigned long long seed;
-                uint8_t key[32], ivb[32];
+        for (;;) {
+                int n = 0;
 
-                if (line[0] == '#' || line[0] == '\n')
-                        continue;
-                if (sscanf(line, "%63s %31s %d %lu %lu %127s %127s %llu", id, algo, &dir, &len, &off,
-                           keyhex, ivhex, &seed) != 8) {
-                        printf("CASE id=? status=-1 errno=-3 errs=0 out=-\n");
-                        continue;
+                while (n < batch && fgets(lines[n], sizeof(lines[n]), f) != NULL) {
+                        if (lines[n][0] == '#' || lines[n][0] == '\n')
+                                continue;
+                        n++;
                 }
-                const int klen = hex2bin(keyhex, key, sizeof(key));
-                const int ivlen = hex2bin(ivhex, ivb, sizeof(ivb));
-
-                if (klen < 0 || ivlen < 0) {
-                        printf("CASE id=%s status=-1 errno=-3 errs=0 out=-\n", id);
-                        continue;
-                }
-                /* public data: message, IV, previous dst content */
-                uint64_t st = seed;
-
-                for (size_t i = 0; i < MAXLEN; i += 8) {
-                        const uint64_t v = splitmix64(&st);
-
-                        memcpy(src + i, &v, 8);
-                }
-                memset(dst, 0x5a, MAXLEN);
-                memset(tag, 0x3c, 64);
-                memset(iv, 0, 64);
-                memcpy(iv, ivb, (size_t) ivlen);
-
-                size_t nbytes = 0; /* bytes of src that must exist */
-                size_t out_len = 0;
-                const uint8_t *out_ptr = dst;
-                void *sec_ptr = NULL; /* secret memory */
-                size_t sec_len = 0;
-
+                if (n == 0)
+                        break;
                 while (IMB_FLUSH_JOB(mgr) != NULL)
                         ;
-                IMB_JOB *job = IMB_GET_NEXT_JOB(mgr);
+                for (int b = 0; b < n; b++)
+                        prepare(mgr, &slots[b], lines[b], &tmpl[b]);
 
-                memset(job, 0, sizeof(*job));
-                job->src = src;
-                job->dst = dst;
-                job->iv = iv;
-                job->cipher_direction = (dir == 2) ? IMB_DIR_DECRYPT : IMB_DIR_ENCRYPT;
-                job->chain_order = IMB_ORDER_CIPHER_HASH;
-                job->cipher_mode = IMB_CIPHER_NULL;
-                job->hash_alg = IMB_AUTH_NULL;
-
-                if (strcmp(algo, "des") == 0 || strcmp(algo, "docsis") == 0) {
-                        if (klen != 8)
-                                goto bad;
-                        IMB_DES_KEYSCHED(mgr, des_ks[0], key);
-                        job->cipher_mode =
-                                algo[1] == 'e' ? IMB_CIPHER_DES : IMB_CIPHER_DOCSIS_DES;
-                        job->enc_keys = job->dec_keys = des_ks[0];
-                        job->key_len_in_bytes = 8;
-                        job->iv_len_in_bytes = 8;
-                        job->cipher_start_src_offset_in_bytes = off;
-                        job->msg_len_to_cipher_in_bytes = len;
-                        nbytes = off + len;
-                        out_len = len;
-                        sec_ptr = des_ks[0];
-                        sec_len = IMB_DES_KEY_SCHED_SIZE;
-                } else if (strcmp(algo, "des3") == 0) {
-                        if (klen != 24)
-                                goto bad;
-                        for (int i = 0; i < 3; i++)
-                                IMB_DES_KEYSCHED(mgr, des_ks[i], key + 8 * i);
-                        job->cipher_mode = IMB_CIPHER_DES3;
-                        job->enc_keys = job->dec_keys = des3_ptrs;
-                        job->key_len_in_bytes = 24;
-                        job->iv_len_in_bytes = 8;
-                        job->cipher_start_src_offset_in_bytes = off;
-                        job->msg_len_to_cipher_in_bytes = len;
-                        nbytes = off + len;
-                        out_len = len;
-                        sec_ptr = des_ks;
-                        sec_len = 3 * IMB_DES_KEY_SCHED_SIZE;
-                } else if (strcmp(algo, "kasumi_f8") == 0) {
-                        if (klen != 16)
-                                goto bad;
-                        IMB_KASUMI_INIT_F8_KEY_SCHED(mgr, key, kas);
-                        job->cipher_mode = IMB_CIPHER_KASUMI_UEA1_BITLEN;
-                        job->enc_keys = job->dec_keys = kas;
-                        job->key_len_in_bytes = 16;
-                        job->iv_len_in_bytes = 8;
-                        job->cipher_start_src_offset_in_bits = off;
-                        job->msg_len_to_cipher_in_bits = len;
-                        nbytes = (off + len + 7) / 8;
-                        out_len = nbytes;
-                        sec_ptr = kas;
-                        sec_len = sizeof(*kas);
-                } else if (strcmp(algo, "kasumi_f9") == 0) {
-                        if (klen != 16)
-                                goto bad;
-                        IMB_KASUMI_INIT_F9_KEY_SCHED(mgr, key, kas);
-                        job->hash_alg = IMB_AUTH_KASUMI_UIA1;
-                        job->chain_order = IMB_ORDER_HASH_CIPHER;
-                        job->u.KASUMI_UIA1._key = kas;
-                        job->hash_start_src_offset_in_bytes = off;
-                        job->msg_len_to_hash_in_bytes = len;
-                        job->auth_tag_output = tag;
-                        job->auth_tag_output_len_in_bytes = 4;
-                        nbytes = off + len;
-                        out_ptr = tag;
-                        out_len = 4;
-                        sec_ptr = kas;
-                        sec_len = sizeof(*kas);
-                } else if (strcmp(algo, "snow3g_uea2") == 0) {
-                        if (klen != 16)
-                                goto bad;
-                        IMB_SNOW3G_INIT_KEY_SCHED(mgr, key, s3g);
-                        job->cipher_mode = IMB_CIPHER_SNOW3G_UEA2_BITLEN;
-                        job->enc_keys = job->dec_keys = s3g;
-                        job->key_len_in_bytes = 16;
-                        job->iv_len_in_bytes = 16;
-                        job->cipher_start_src_offset_in_bits = off;
-                        job->msg_len_to_cipher_in_bits = len;
-                        nbytes = (off + len + 7) / 8;
-                        out_len = nbytes;
-                        sec_ptr = s3g;
-                        sec_len = s3g_size;
-                } else if (strcmp(algo, "snow3g_uia2") == 0) {
-                        if (klen != 16)
-                                goto bad;
-                        IMB_SNOW3G_INIT_KEY_SCHED(mgr, key, s3g);
-                        job->hash_alg = IMB_AUTH_SNOW3G_UIA2_BITLEN;
-                        job->chain_order = IMB_ORDER_HASH_CIPHER;
-                        job->u.SNOW3G_UIA2._key = s3g;
-                        job->u.SNOW3G_UIA2._iv = iv;
-                        job->hash_start_src_offset_in_bytes = off;
-                        job->msg_len_to_hash_in_bits = len;
-                        job->auth_tag_output = tag;
-                        job->auth_tag_output_len_in_bytes = 4;
-                        nbytes = off + (len + 7) / 8;
-                        out_ptr = tag;
-                        out_len = 4;
-                        sec_ptr = s3g;
-                        sec_len = s3g_size;
-                } else {
-                        goto bad;
-                }
-                if (nbytes > MAXLEN)
-                        goto bad;
-
-                unsigned errs0 = VALGRIND_COUNT_ERRORS;
-                IMB_JOB *ret;
-                int st_job = -1, err_job = 0;
+                const unsigned errs0 = VALGRIND_COUNT_ERRORS;
+                int err_job = 0;
 
                 if (taint)
-                        (void) VALGRIND_MAKE_MEM_UNDEFINED(sec_ptr, sec_len);
-                *K7_MARK = 1;
-                ret = IMB_SUBMIT_JOB(mgr);
-                err_job = imb_get_errno(mgr);
-                if (ret == NULL && err_job == 0)
-                        ret = IMB_FLUSH_JOB(mgr);
-                *K7_MARK = 2;
-                /* did the secret's taint reach the output? (memcheck only; 0 elsewhere) */
-                int reached = 0;
-                {
+                        for (int b = 0; b < n; b++)
+                                if (slots[b].ok)
+                                        (void) VALGRIND_MAKE_MEM_UNDEFINED(slots[b].sec_ptr,
+                                                                           slots[b].sec_len);
+                k7_page[0] = 1; /* ---- segment start ---- */
+                for (int b = 0; b < n; b++) {
+                        if (!slots[b].ok)
+                                continue;
+                        IMB_JOB *job = IMB_GET_NEXT_JOB(mgr);
+
+                        *job = tmpl[b];
+                        IMB_JOB *ret = IMB_SUBMIT_JOB(mgr);
+                        const int e = imb_get_errno(mgr);
+
+                        if (e != 0 && err_job == 0)
+                                err_job = e;
+                        collect(ret);
+                }
+                for (;;) {
+                        IMB_JOB *ret = IMB_FLUSH_JOB(mgr);
+
+                        if (ret == NULL)
+                                break;
+                        collect(ret);
+                }
+                k7_page[1] = 1; /* ---- segment end ---- */
+
+                /* did the secrets' taint reach the outputs? (memcheck only; 0 elsewhere) */
+                int reached[MAXBATCH];
+
+                for (int b = 0; b < n; b++) {
                         static uint8_t vb[MAXLEN + 64];
-                        const size_t n = out_len ? out_len : 1;
+                        const size_t len = slots[b].out_len ? slots[b].out_len : 1;
 
-                        if (VALGRIND_GET_VBITS(out_ptr, vb, n) == 1)
-                                for (size_t i = 0; i < n; i++)
-                                        reached |= vb[i] != 0;
+                        reached[b] = 0;
+                        if (slots[b].ok && VALGRIND_GET_VBITS(slots[b].out_ptr, vb, len) == 1)
+                                for (size_t i = 0; i < len; i++)
+                                        reached[b] |= vb[i] != 0;
                 }
-                /* everything back to defined: outputs, schedule, manager state, locals */
-                (void) VALGRIND_MAKE_MEM_DEFINED(sec_ptr, sec_len);
+                /* everything back to defined: schedules, manager state, buffers */
                 (void) VALGRIND_MAKE_MEM_DEFINED(mgr, mgr_size);
-                (void) VALGRIND_MAKE_MEM_DEFINED(dst, MAXLEN);
-                (void) VALGRIND_MAKE_MEM_DEFINED(src, MAXLEN);
-                (void) VALGRIND_MAKE_MEM_DEFINED(tag, 64);
-                (void) VALGRIND_MAKE_MEM_DEFINED(&ret, sizeof(ret));
-                if (ret != NULL) {
-                        (void) VALGRIND_MAKE_MEM_DEFINED(ret, sizeof(*ret));
-                        st_job = (int) ret->status;
-                }
-                unsigned errs1 = VALGRIND_COUNT_ERRORS;
+                (void) VALGRIND_MAKE_MEM_DEFINED(slots, sizeof(slots));
+                for (int b = 0; b < n; b++) {
+                        slot_t *s = &slots[b];
 
-                printf("CASE id=%s status=%d errno=%d errs=%u taint=%d out=", id, st_job, err_job,
-                       errs1 - errs0, reached);
-                if (out_len == 0)
-                        printf("-");
-                for (size_t i = 0; i < out_len; i++)
-                        printf("%02x", out_ptr[i]);
-                printf("\n");
+                        if (s->ok)
+                                (void) VALGRIND_MAKE_MEM_DEFINED(s->sec_ptr, s->sec_len);
+                        (void) VALGRIND_MAKE_MEM_DEFINED(s->dst, MAXLEN);
+                        (void) VALGRIND_MAKE_MEM_DEFINED(s->src, MAXLEN);
+                        (void) VALGRIND_MAKE_MEM_DEFINED(s->tag, 64);
+                }
+                const unsigned errs1 = VALGRIND_COUNT_ERRORS;
+
+                for (int b = 0; b < n; b++) {
+                        const slot_t *s = &slots[b];
+
+                        if (!s->ok) {
+                                printf("CASE id=%s status=-1 errno=-3 errs=0 taint=0 out=-\n", s->id);
+                                continue;
+                        }
+                        printf("CASE id=%s status=%d errno=%d errs=%u taint=%d out=", s->id,
+                               s->done ? s->status : -2, err_job, errs1 - errs0, reached[b]);
+                        if (s->out_len == 0)
+                                printf("-");
+                        for (size_t i = 0; i < s->out_len; i++)
+                                printf("%02x", s->out_ptr[i]);
+                        printf("\n");
+                }
                 fflush(stdout);
-                continue;
-        bad:
-                /* give the slot back: submit nothing; the job ring only advances on submit */
-                printf("CASE id=%s status=-1 errno=-3 errs=0 out=-\n", id);
         }
         fclose(f);
-        while (IMB_FLUSH_JOB(mgr) != NULL)
-                ;
         free_mb_mgr(mgr);
         return 0;
 }
